@@ -241,13 +241,15 @@ class SimInverter:
             blk = self.blocks.get(cmd)
             if blk is None:
                 return None
+            if callable(blk):
+                blk = blk(p.get("tx_index", 0))
             return codec.aa55_response(rtype, blk)
         if cmd == 0x011A:
-            # payload: 03 reg(2) count(1)
-            if len(pl) != 4:
+            # payload: reg(2) count(1)
+            if len(pl) != 3:
                 return None
-            reg = (pl[1] << 8) | pl[2]
-            n = pl[3]
+            reg = (pl[0] << 8) | pl[1]
+            n = pl[2]
             if self.mode == "stamp":
                 return codec.aa55_response(rtype, self.stamp_payload(reg, n, p.get("tx_index", 0)))
             return codec.aa55_response(rtype, self.get_aa55_bytes(reg, n))
